@@ -406,7 +406,7 @@ func (g *G) selectingHeaders() []Hdr {
 		hs = append(hs, Hdr{"User-Agent", []string{g.pick("Agent/1", "agent/1", "Other")}})
 	}
 	// a selecting field sent on several field lines
-	if len(hs) > 0 && g.chance(0.12) {
+	if len(hs) > 0 && g.chance(0.2) {
 		i := g.intn(len(hs))
 		hs[i].Vals = append(hs[i].Vals, g.pick("br", "b", "fr", "x", hs[i].Vals[0]))
 	}
